@@ -73,12 +73,37 @@ def set_table_hostile(sf, t, rng, ctx=None):
     that dict afterwards.  Returns the table the library reports to be in force.  With copy semantics (property
     C12) the later edits are invisible to the library; every check judges against the REPORTED table, so an
     aliasing library shows up as a contradiction between that table and the translation behaviour."""
+    if rng.random() < 0.2:
+        # what callers do with what the getters hand out: fetch, then edit (private copies per property C12)
+        for name in sorted(PRESETS):
+            g = sf.get_preset_constraints(name)
+            g[rng.choice(["C", "N", "O", "S", "?"])] = rng.choice([0, 6, 9])
+            g.pop("F", None)
+        g = sf.get_semantic_constraints()
+        g["C"] = 7
+        g.clear()
+    if isinstance(t, dict) and rng.random() < 0.5:
+        for name in sorted(PRESETS):
+            if t == PRESETS[name]:
+                t = name                      # a preset is mostly selected by its name
+                break
     if isinstance(t, str):
         sf.set_semantic_constraints(t)
-        return sf.get_semantic_constraints()
-    passed = dict(t)
-    sf.set_semantic_constraints(passed)
+    else:
+        passed = dict(t)
+        sf.set_semantic_constraints(passed)
+    if rng.random() < 0.15:
+        # a rejected update right after the accepted one (valid, different entries first, then one bad entry)
+        bad, _ = invalid_update(rng)
+        try:
+            sf.set_semantic_constraints(bad)
+        except Exception:       # noqa - which exception, and atomicity, are C12's business; here it must simply not matter
+            pass
+        if ctx is not None:
+            ctx.count("rejected_update_after_set")
     reported = sf.get_semantic_constraints()
+    if isinstance(t, str):
+        return reported
     x = rng.random()
     if x < 0.25:
         for k in list(passed):
